@@ -12,6 +12,7 @@ RULES = {
     "T3": "parked orders come back: every local container that receives orders inside the loop is drained into Q.push by a forward loop on every path from the loop exit to return",
     "T4": "OrderQueue::pop terminates: it loops only after consuming a ticket on a map miss and reports empty only when the ticket queue is exhausted",
     "T6": "an order parked for the rest of the call displays nothing: display(parked) == 0 is provable from the path facts (otherwise the call can return with quantity remaining while displayed liquidity is left)",
+    "T7": "every resting order is reachable by pop: the only map insertion is OrderQueue::push, which also appends the ticket of the order's own id; the queue constructors (from_vec / From<Vec> used by every restore path / FromStr / Deserialize) push every element once; nobody else touches the map or the tickets - otherwise an order that displays quantity can never be matched and match_order returns with quantity remaining",
     "T0": "coverage: the match loop has iteration paths and exit paths",
 }
 
@@ -47,6 +48,9 @@ def run(ctx, chk):
     chk.not_decided = ["termination under concurrent producers", "wall-clock bounds"]
     L = LevelAnalysis(ctx)
     Q = QueueAnalysis(ctx)
+    Q.rule_push(chk, "T7", "T7")
+    Q.rule_constructors(chk, "T7")
+    Q.who_may(chk, "T7")
     b, res, stats = L.paths("match_order")
     fn = b.defp
     chk.stats["paths"] = len(res)
